@@ -26,6 +26,7 @@ N_ = "contracts.parsing_native"
 # (`a is t a is t and`), and engines that import fine but cannot be processed for reasons outside the parser (no activation method, an
 # empty Discrete term, mixed weighted-defuzzifier term kinds: readiness is C19's subject and these fail with a clean ValueError/TypeError there)
 NOT_DEMANDED = ["accepted-malformed:antecedent-arrangement", "accepted-not-processable"]
+RP_FLL = {"module": N_, "func": "replay_fll_mutations", "kwargs": {"budget": 40, "skip_classes": ["accepted-malformed:antecedent-arrangement", "accepted-not-processable"]}, "vars": {}}
 RP = {"module": N_, "func": "replay_rule_text", "kwargs": {"budget": 60, "skip_classes": NOT_DEMANDED}, "vars": {}}
 ALLOWED = ("SyntaxError", "ValueError")
 
@@ -505,10 +506,72 @@ def verify_infix_to_postfix(run):
     run.add(static(f"{fq}/raise_sites", "SyntaxError" in kinds, f"exception types at raise statements: {kinds} (types other than SyntaxError/ValueError are proved unreachable above)", fn=fq))
 
 
+# ------------------------------------------------------------------------------------------------ FllImporter.boolean / FllImporter.range
+def verify_importer_leaves(run):
+    src = run.src
+    sc = W.schema(src)
+    strip_fn = z3.Function("strip_fn", Str, Str)
+
+    class LeafExec(ParserExec):
+        def method_call(s, p, recv, meth, args, kwargs, node):
+            if isinstance(recv, StrV) and meth == "strip" and not args:
+                return StrV(strip_fn(recv.t))
+            return super().method_call(p, recv, meth, args, kwargs, node)
+
+        def ev_Call(s, p, e):
+            if isinstance(e.func, ast.Name) and e.func.id == "to_float" and len(e.args) == 1:
+                v = s.ev(p, e.args[0])
+                if isinstance(v, StrV):
+                    q = p.fork(); q.pc.append(z3.Not(to_float_ok(v.t))); s.raised.append((q, "ValueError"))
+                    p.pc += [to_float_ok(v.t), canon(to_float_fn(v.t))]
+                    return Num(xr2x(to_float_fn(v.t)), False, True)
+            return super().ev_Call(p, e)
+
+        def ev_Tuple(s, p, e):
+            return tuple(s.ev(p, x) for x in e.elts)
+    fll = z3.Const("fll", Str)
+    # boolean
+    fq = "importer.FllImporter.boolean"
+    fn = src.func("importer", "FllImporter.boolean")
+    run.under_contract("importer", "FllImporter.boolean", fn)
+    ex = LeafExec(src, "importer", sc, contracts={}, interfaces={}, inline=set(), loops={}, fnname=fq)
+    outs = ex.run_fn(fn, HPath({"self": RefV(z3.Const("self", Ref), None), "fll": StrV(fll)}, [], init_heap(sc)))
+    emit(run, ex, fq, [], RP)
+    T, F_ = strc("true"), strc("false")
+    for i, (kind, val, q) in enumerate(outs):
+        tag = f"[path{i}]"
+        st = strip_fn(fll)
+        if kind == "raise":
+            run.add(Obl(f"{fq}/rejects_only_other_texts{tag}", q.pc + str_distinct(), z3.And(z3.BoolVal(val == "SyntaxError"), st != T, st != F_), fn=fq, meta={"replay": RP_FLL}))
+        else:
+            b = ex.boo(val).b if not isinstance(val, bool) else z3.BoolVal(val)
+            run.add(Obl(f"{fq}/true_false_by_the_stripped_text{tag}", q.pc + str_distinct(), z3.And(z3.Implies(b, st == T), z3.Implies(z3.Not(b), st == F_)), fn=fq, meta={"replay": RP_FLL}))
+    run.add(static(f"{fq}/three_outcomes", sorted(k for k, _, _ in outs) == ["raise", "return", "return"], f"outcomes: {[(k, v if k == 'raise' else '...') for k, v, _ in outs]}", fn=fq))
+    # range
+    fq = "importer.FllImporter.range"
+    fn = src.func("importer", "FllImporter.range")
+    run.under_contract("importer", "FllImporter.range", fn)
+    ex = LeafExec(src, "importer", sc, contracts={}, interfaces={}, inline=set(), loops={}, fnname=fq)
+    outs = ex.run_fn(fn, HPath({"self": RefV(z3.Const("self", Ref), None), "fll": StrV(fll)}, [], init_heap(sc)))
+    emit(run, ex, fq, [], RP)
+    toks = split_fn(fll)
+    kinds = sorted({val for kind, val, q in outs if kind == "raise"})
+    run.add(static(f"{fq}/raises.only_syntax_or_value_errors", all(k in ALLOWED for k in kinds), f"exception types: {kinds}", fn=fq, meta={"replay": RP_FLL}))
+    for i, (kind, val, q) in enumerate(outs):
+        tag = f"[path{i}]"
+        if kind == "raise":
+            if val == "SyntaxError":
+                run.add(Obl(f"{fq}/syntax_error_iff_not_two_tokens{tag}", q.pc + str_distinct(), z3.Length(toks) != 2, fn=fq, meta={"replay": RP_FLL}))
+            continue
+        ok = isinstance(val, tuple) and len(val) == 2
+        goal = z3.And(z3.Length(toks) == 2, x2xr(ex.num(val[0]).x) == to_float_fn(toks[0]), x2xr(ex.num(val[1]).x) == to_float_fn(toks[1])) if ok else z3.BoolVal(False)
+        run.add(Obl(f"{fq}/returns_the_two_numbers_in_order{tag}", q.pc + str_distinct(), goal, fn=fq, meta={"replay": RP_FLL}))
+
+
 def build(run):
     run.assume("A-STR", "A-PY", "A-MSG", "A-LOG", "A-LISTVAL", "A-FRESH")
     plan = [("rule.Rule.parse", verify_rule_parse), ("rule.Consequent.load", verify_consequent_load), ("rule.Antecedent.load", verify_antecedent_load),
-            ("term.Function.infix_to_postfix", verify_infix_to_postfix)]
+            ("term.Function.infix_to_postfix", verify_infix_to_postfix), ("importer.FllImporter.boolean+range", verify_importer_leaves)]
     # Rule.load (a failed load leaves the rule unloaded and deactivated) and RuleBlock.load_rules (every rule attempted, one RuntimeError
     # afterwards) are verified by the drivers shared with C13, over the loader contracts whose raise/unloaded clauses are proved above
     from props import C13
